@@ -26,7 +26,7 @@ claim("C02", "M", "SMT bounded model checking of MIR (z3 + cvc5 portfolio)",
       "Kernel level: forward admission arithmetic (amount + advertised fee, CLTV delta) for all u64/u32/u16 inputs incl. overflow paths, and the onion CLTV admission check. Claim/fail ordering, monitor durability and restart are outside the claim.",
       "trusted: rustc MIR dump, engine_m, z3; heights < 2^31")
 claim("C08", "M", "SMT bounded model checking of MIR (z3 + cvc5 portfolio)",
-      "Kernel level: every per-HTLC CLTV boundary inequality (forward admission, claim deadline <=> automatic fail-back, final-hop acceptance, the monitor's go-on-chain decision for an unresolved HTLC: outbound expired >= 3 blocks ago, inbound with known preimage expiring within 36 blocks) for all heights < 2^31 and all expiries, and the safety margins they compose to; loops over HTLCs are decided one iteration at a time from an arbitrary loop-head state.",
+      "Kernel level: every per-HTLC CLTV boundary inequality (forward admission, claim deadline <=> automatic fail-back, final-hop acceptance, the claim deadline announced with PaymentClaimable = earliest part expiry - 39, the monitor's go-on-chain decision for an unresolved HTLC: outbound expired >= 3 blocks ago, inbound with known preimage expiring within 36 blocks) for all heights < 2^31 and all expiries, and the safety margins they compose to; loops over HTLCs are decided one iteration at a time from an arbitrary loop-head state.",
       "trusted: rustc MIR dump, engine_m, z3/cvc5; the end-to-end race against the chain is outside the claim")
 claim("C16", "M", "SMT bounded model checking of MIR (z3 + cvc5 portfolio)",
       "Kernel level: routing fee arithmetic (compute_fees, saturating variant), cross-module agreement with the forwarding node's fee check, max_htlc_from_capacity; all u64/u32/u8 inputs. Path level: PaymentPath::update_value_and_recompute_fees on 1-3 (thorough 4) symbolic hops - every forwarding node is paid at least its policy fee for the amount it forwards, every hop carries at least its htlc_minimum (amounts <= 2^40 msat, proportional fees <= 2^19 ppm). The path search, liquidity accounting and scoring are outside the claim.",
